@@ -21,6 +21,9 @@ pub fn seg_name(id: i64) -> String {
         26 => "root".to_string(),
         50 => String::new(),
         101..=140 => "\u{e9}".repeat((id - 100) as usize),
+        // names are compared as they are: capitals and surrounding blanks are part of the name
+        200..=225 => format!("Seg{}", (b'A' + (id - 200) as u8) as char),
+        230..=255 => format!(" seg{} ", (b'a' + (id - 230) as u8) as char),
         _ => format!("n{}", id),
     }
 }
@@ -212,7 +215,7 @@ fn rand_imat(rng: &mut Rng) -> [i64; 9] {
     m
 }
 fn rand_name(rng: &mut Rng, n: usize) -> i64 {
-    match rng.below(14) { 0 => 26, 1 => 50, 2 => 101 + rng.below(5) as i64, 3 => 128 + rng.below(13) as i64 /* 56..80 bytes */, _ => rng.below((n + 2) as u64) as i64 }
+    match rng.below(16) { 0 => 26, 1 => 50, 14 => 200 + rng.below((n + 2) as u64).min(25) as i64, 15 => 230 + rng.below((n + 2) as u64).min(25) as i64, 2 => 101 + rng.below(5) as i64, 3 => 128 + rng.below(13) as i64 /* 56..80 bytes */, _ => rng.below((n + 2) as u64) as i64 }
 }
 
 pub fn gen(o: &Opts, sink: &mut dyn FnMut(Vec<i64>, String)) {
